@@ -119,6 +119,15 @@ Print Assumptions C04_step.
 Theorem C04_exit : forall ok, exit_status ok = 0 <-> ok = true.
 Proof. exact exit_status_ok. Qed.
 Print Assumptions C04_exit.
+(* ... and for the run as a whole: the status is 0 exactly when no error / failure / unexpected success was
+   reported since the last startTestRun - independently of how many tests were started: none at all (an empty
+   selection, tests skipped without startTest) gives 0, a problem reported without any startTest (a failing
+   setUpClass) gives non-zero *)
+Theorem C04_exit_history : forall i pre, wf i -> finding_F18 i = false -> has_e2s i = false -> has_foreign i = false ->
+  (exit_status (was_ok (fold_left do_op pre (init (stack i) (set_after i)))) = 0
+   <-> existsb is_problem (since_run pre) = false).
+Proof. exact (fun i pre W => exit_after i pre (proj1 W)). Qed.
+Print Assumptions C04_exit_history.
 Theorem C04_exit_no_truncation : forall ok, exit_arg ok < 256 /\ exit_status ok = exit_arg ok.
 Proof. exact (fun ok => conj (exit_arg_small ok) (Nat.mod_small _ _ (exit_arg_small ok))). Qed.
 Print Assumptions C04_exit_no_truncation.
